@@ -104,7 +104,13 @@ def gen_case(rng, tier, index):
                                  if rng.random() < 0.3 else "sync"])}
 
 
+SCRATCH_GUARD = [""]
+
+
 def plant(path: str, src: str) -> None:
+    # never touch anything outside the run's scratch area
+    if not os.path.abspath(path).startswith(SCRATCH_GUARD[0] + os.sep):
+        return
     os.makedirs(os.path.dirname(path), exist_ok=True)
     if os.path.isdir(path):
         return
@@ -125,6 +131,7 @@ def run_case(case):
     with eread.ReadEnv(hist, case["seed"]) as env:
         root = os.path.realpath(env.root)
         scratch = env.scratch
+        SCRATCH_GUARD[0] = os.path.realpath(scratch)
         splits = [s for s in hist["splits"] if env.model.ids(s)]
         if not splits:
             return {"ok": True, "digest": "empty", "nontrivial": False,
@@ -150,6 +157,8 @@ def run_case(case):
                 if part in ("", "."):
                     continue
                 cur = os.path.normpath(os.path.join(cur, part))
+                if not cur.startswith(SCRATCH_GUARD[0] + os.sep):
+                    return
                 if part != "..":
                     try:
                         os.makedirs(cur, exist_ok=True)
